@@ -456,7 +456,11 @@ carquet_status_t carquet_batch_reader_next(
             int64_t values_read = carquet_column_read_batch(
                 col_reader, col_data->data, rows_to_read, def_levels, NULL);
 
-            if (values_read < 0) {
+            /* A short count means a later page of this column could not be read
+             * (I/O error, checksum mismatch, decode failure): the column reader
+             * hands back what it had. A batch whose columns differ in length must
+             * not be passed off as good data. */
+            if (values_read != rows_to_read) {
                 read_error = true;
                 free(def_levels);
                 continue;
